@@ -66,6 +66,23 @@ def run(tier, scratch, t0, replay=None):
             res.inconclusive.append("compile %s: %s" % (K.vstr(b["v"]), err))
             continue
         files += [it["pyc"] for it in b["items"] if os.path.exists(it["pyc"]) and os.path.getsize(it["pyc"]) < 12000]
+    # whatever the seed: a file of one version listed, then a file of a neighbouring version (and back): tables derived from
+    # the neighbour's must not have been touched
+    by_v = {}
+    for b in batches:
+        for it in b["items"]:
+            if os.path.exists(it["pyc"]) and "t_control" in it["pyc"] and os.path.getsize(it["pyc"]) < 12000:
+                by_v.setdefault(b["v"], it["pyc"])
+    neighbour_hists = []
+    vv = sorted(by_v)
+    for i, v1 in enumerate(vv):
+        for v2 in vv[max(0, i - 2):i + 3]:
+            if v1 == v2:
+                continue
+            neighbour_hists.append({"ops": [{"op": "disassemble_file", "file": by_v[v1], "fmt": "classic"}],
+                                    "probe": {"op": "disassemble_file", "file": by_v[v2], "fmt": "classic"}})
+            neighbour_hists.append({"ops": [{"op": "bytecode", "file": by_v[v2]}, {"op": "bytecode", "file": by_v[v1]}],
+                                    "probe": {"op": "bytecode", "file": by_v[v2]}})
     # corrupt variants of the dropbox-encrypted files (a failed load must leave no trace either)
     cdir = scratch.sub("corrupt")
     for p in [f for f in K.corpus_files() if "dropbox" in f][:4]:
@@ -98,7 +115,7 @@ def run(tier, scratch, t0, replay=None):
                 continue
             PY2_FILES.extend(it["pyc"] for it in b["items"] if os.path.exists(it["pyc"]) and os.path.getsize(it["pyc"]) < 12000)
     n = 480 if quick else 20000
-    hists = []
+    hists = list(neighbour_hists)
     # whatever the seed: listings of two files whose constant tuples are equal but not the same constants, in both orders and
     # across versions (state keyed by equality would show one file's constants in the other's listing)
     eq = {}
